@@ -160,6 +160,16 @@ func propVerify(t *rapid.T) {
 	if got != want {
 		t.Fatalf("Verify(pk=%x, msg=%x, sig=%x) = %v, BIP-340 says %v [%s/%s]", pk2, msg2, sig, got, want, how, edit)
 	}
+	// follow-up calls on the same key object: a related message, then the original again
+	if rapid.Bool().Draw(t, "follow-up") {
+		alt := append(append([]byte(nil), msg2...), 0x80)
+		if g2, w2 := key.Verify(alt, sig), ref.BIP340Verify(pk2, alt, sig); g2 != w2 {
+			t.Fatalf("Verify(pk=%x, msg=%x, sig=%x) = %v right after verifying msg %x, BIP-340 says %v", pk2, alt, sig, g2, msg2, w2)
+		}
+		if g3 := key.Verify(msg2, sig); g3 != want {
+			t.Fatalf("Verify(pk=%x, msg=%x, sig=%x) = %v on the second identical call, %v on the first", pk2, msg2, sig, g3, got)
+		}
+	}
 	// the same verdict through a key built from the point
 	key2, err := bitcoin.NewSchnorrPublicKeyFromPoint(lib.Pt(ref.Pt{X: ref.Int(pk2), Y: liftY(ref.Int(pk2), rapid.Bool().Draw(t, "frompoint-odd"))}))
 	if err != nil || key2.Verify(msg2, sig) != want {
